@@ -16,7 +16,8 @@ import (
 
 // VerifField is a settable handle on one leaf field of a message struct.
 type VerifField struct {
-	// Path is the dotted Go field path, e.g. "Auth.AttachName".
+	// Path is the dotted Go field path, e.g. "Auth.AttachName" (embedded structs add no
+	// component).
 	Path string
 	// Val is the addressable, settable field value (unexported fields included).
 	Val reflect.Value
@@ -74,6 +75,10 @@ func VerifFields(m interface{}) []VerifField {
 				name = prefix + "." + name
 			}
 			if f.Kind() == reflect.Struct {
+				if t.Field(i).Anonymous {
+					// Embedded structs do not contribute a path component.
+					name = prefix
+				}
 				walk(name, f)
 				continue
 			}
